@@ -6,12 +6,13 @@ open Conv
 let e key = let rk = sm4_round_keys key in fun b -> sm4_encrypt_rk rk b
 let d key = let rk = sm4_round_keys key in fun b -> sm4_decrypt_rk rk b
 
-let core (mode : string) =
+(* the helpers with [in] in the caller's heap *)
+let helper_mem (mode : string) =
   match mode with
-  | "ecb" -> sm4Ecb_core e d
-  | "cbc" -> sm4Cbc_core e d
-  | "cfb" -> sm4CFB_core e
-  | "ofb" -> sm4OFB_core e
+  | "ecb" -> sm4Ecb_mem e d
+  | "cbc" -> sm4Cbc_mem e d
+  | "cfb" -> sm4CFB_mem e
+  | "ofb" -> sm4OFB_mem e
   | _ -> failwith "bad mode"
 
 let helper (mode : string) =
@@ -28,8 +29,9 @@ let pkg_of (iv : string) = if iv = "-" then init_pkg else snd (setIV (bytes_of_h
 let call_mem mode p key m canary dir =
   let arr = m @ canary in
   let s = { s_arr = O; s_off = O; s_len = nat_of_int (List.length m); s_cap = nat_of_int (List.length arr) } in
-  let (h', r) = helper_mem (core mode) p [arr] key s dir in
-  (r, array h' O = arr)
+  (match helper_mem mode p [arr] key s dir with
+   | Ok (h', o) -> (Ok o, array h' O = arr)
+   | Err n -> (Err n, true) | Panic -> (Panic, true) | Hang -> (Hang, true))
 
 let handle (f : string array) : string =
   match f.(0) with
